@@ -231,11 +231,11 @@ macro_rules! blte_decrypt_walk {
             spy::reset();
             let r = decrypt_chunk_with_keys(&d, &ks, idx);
             assert!(spy::max_req() <= spy::limit(N), "decrypt_chunk_with_keys: allocation request out of proportion to input");
-            kani::cover!(r.is_ok() || N < 17, "accepted");
+            kani::cover!(r.is_ok() || N < 16, "accepted");
             kani::cover!(r.is_err(), "rejected");
             if r.is_ok() {
                 // accepted => the fixed layout [8][name:8][4|8][iv][S|A][data..] fits
-                assert!(N >= 17 && d[0] == 8, "key name size must be 8");
+                assert!(N >= 16 && d[0] == 8, "minimum length 16 (15-byte header + inner mode byte, fix 9f7479c) and key name size 8");
                 assert!(d[9] == 4 || d[9] == 8, "IV size must be 4 or 8");
                 let t = 10 + d[9] as usize;
                 assert!(t < N, "type byte beyond the input");
@@ -247,10 +247,11 @@ macro_rules! blte_decrypt_walk {
     };
 }
 // @family prop=C02 tier=quick timeout=900 role=blte-decrypt-header-walk
-// @bounds encrypted-chunk body of concrete length N (name: n<N>; 16 = below minimum, 17 = minimum, 18..24 = around the 8-byte IV layout), every byte and the block index symbolic
+// @bounds encrypted-chunk body of concrete length N (name: n<N>; 15 = below minimum, 16 = minimum (empty payload, fix 9f7479c), 17..24 = around the 8-byte IV layout), every byte and the block index symbolic
 // @encodes cascette_formats::blte::compression::decrypt_chunk_with_keys
 // @assumes key store lookup nondeterministic (present/absent); Salsa20 / ARC4 replaced by length-preserving stand-ins with arbitrary first byte (mode letter of the plaintext); inner decompress_chunk stubbed; std::fmt::format stubbed; RandomState pinned
-// @catches slice past the end for iv_size 8 with a 17..21-byte body, missing minimum-length check, accepting other key-name / IV sizes, nested 'E' passed on, offsets shifted by one
+// @catches slice past the end for iv_size 8 with a 16..20-byte body, missing minimum-length check, accepting other key-name / IV sizes, nested 'E' passed on, offsets shifted by one
+blte_decrypt_walk!(c02_blte_decrypt_walk_n15, 15);
 blte_decrypt_walk!(c02_blte_decrypt_walk_n16, 16);
 blte_decrypt_walk!(c02_blte_decrypt_walk_n17, 17);
 blte_decrypt_walk!(c02_blte_decrypt_walk_n18, 18);
